@@ -55,10 +55,14 @@ impl Dictionary {
         }
     }
 
-    /// the sentence's character infos come from this dictionary's table
+    /// the sentence's character infos name categories this dictionary's unknown-word table knows,
+    /// each with at least one unk.def entry (follows from compiled(char_prop) + tok_wf + unk_total)
     pub open spec fn sent_ok(&self, sent: &Sentence) -> bool {
         &&& sent.wf()
-        &&& forall|i: int| 0 <= i < sent.cinfos.len() ==> exists|j: int| 0 <= j < self.data.char_prop.chr2inf.len() && #[trigger] sent.cinfos[i] == #[trigger] self.data.char_prop.chr2inf[j]
+        &&& forall|i: int| 0 <= i < sent.cinfos.len() ==> {
+                let c = (#[trigger] sent.cinfos[i]).s_base_id() as int;
+                c < self.data.unk_handler.num_cate() && self.data.unk_handler.offsets[c] < self.data.unk_handler.offsets[c + 1]
+            }
     }
 
     /// the dictionary entry a word index names
@@ -79,7 +83,7 @@ impl Dictionary {
     }
 
     /// a stored node carries the ids and the word cost of the dictionary entry it names (C01)
-    pub open spec fn node_matches<C: ConnectorCost>(&self, ends: Seq<Vec<Node>>, n: Node, c: &C) -> bool {
+    pub open spec fn node_matches<C: CostModel>(&self, ends: Seq<Vec<Node>>, n: Node, c: &C) -> bool {
         let w = WordIdx { lex_type: n.lex_type, word_id: n.word_id };
         &&& self.word_idx_valid(w)
         &&& self.spec_word_param(w).left_id == n.left_id
@@ -87,7 +91,7 @@ impl Dictionary {
         &&& self.spec_word_param(w).word_cost as int == node_wc(ends, n, c)
     }
 
-    pub open spec fn lattice_matches<C: ConnectorCost>(&self, l: &Lattice, c: &C) -> bool {
+    pub open spec fn lattice_matches<C: CostModel>(&self, l: &Lattice, c: &C) -> bool {
         forall|e: int, k: int| 1 <= e <= l.len_char && 0 <= k < l.ends[e].len() ==>
             #[trigger] self.node_matches(l.ends@, l.ends[e][k], c)
     }
